@@ -44,12 +44,13 @@ func init() {
 		shards: func(cfg vlib.Cfg) int { return cfg.N(16, 32) },
 		run:    runC11,
 		rule: "c11.tree: PRNG query trees over all 18 operators, and/or/not nesting (depth <= 4 quick / 6 thorough, arity 1-4), key prefixes, orderby/limit/offset, operands: int64 boundaries, floats, booleans, strings and keys over an alphabet with space, tab, newline, quote, backslash, parentheses, comma, multi-byte runes, leading/trailing specials; only trees passing Check(); " +
-			"c11.grammar: texts of the README grammar (grouping, no and/or mixing, both not forms, every operator alias, quoted and backslash-escaped tokens, free whitespace) with their intended AST; c11.text: token soups, mutations of valid texts (drop/duplicate/swap tokens, unbalanced quotes and parentheses, trailing backslash, truncation inside multi-byte runes), random bytes. " +
+			"c11.recheck: query trees with one deliberately invalid leaf (operand of the wrong type, unparsable number/bool, bad regex, one-element In text, unknown operator): Check() must fail, and keep failing / IsChecked() stay false on the same object; c11.grammar: texts of the README grammar (grouping, no and/or mixing, both not forms, every operator alias, quoted and backslash-escaped tokens, free whitespace) with their intended AST; c11.text: token soups, mutations of valid texts (drop/duplicate/swap tokens, unbalanced quotes and parentheses, trailing backslash, truncation inside multi-byte runes), random bytes. " +
 			"Witnesses: per query ~48 records derived from its own operands (each as struct record and as JSON wrapper) plus fixed ones, and sample keys around the prefix. distinct = distinct (class,input); non-trivial = the query passed Check() and was compared (tree/grammar), or ParseQuery returned (text)",
 		finish: func(cfg vlib.Cfg, r *vlib.Report) {
 			r.Floor(r.Counter("q1_trees_compared") >= int64(cfg.N(8000, 100000)), "q1_trees_compared=%d", r.Counter("q1_trees_compared"))
 			r.Floor(r.Counter("q3_texts") >= int64(cfg.N(8000, 100000)), "q3_texts=%d", r.Counter("q3_texts"))
 			r.Floor(r.Counter("q2_texts") >= int64(cfg.N(100000, 3000000)), "q2_texts=%d", r.Counter("q2_texts"))
+			r.Floor(r.Counter("recheck_histories") >= int64(cfg.N(3000, 20000)), "recheck_histories=%d", r.Counter("recheck_histories"))
 			r.Floor(r.SeenCount("operators") >= 18, "operators seen: %d of 18", r.SeenCount("operators"))
 			r.Floor(r.Counter("witness_true") > 0 && r.Counter("witness_false") > 0, "witness records did not discriminate")
 			r.Assume("witness agreement is demanded between the same query before and after the text round trip (Q1) and between the parsed query and the harness evaluator of the intended AST on typed keys (Q3); struct-vs-JSON accessor differences are never compared")
@@ -72,6 +73,11 @@ func init() {
 		}
 	}
 	classes["c11.text"] = c11Text
+	classes["c11.recheck"] = func(c *ctx, in []byte) {
+		if len(in) >= 8 {
+			c11Recheck(c, binary.LittleEndian.Uint64(in))
+		}
+	}
 }
 
 // ---------------------------------------------------------------------------------
@@ -89,6 +95,8 @@ type c11Node struct {
 	B    bool
 	// how the operand is handed to query.Where (Q1 only): 0 native, 1 as string, 2 narrow Go type
 	Via int
+	// Bad > 0: the leaf is built invalid on purpose (c11.recheck), see c11BadLeaf
+	Bad int
 }
 
 type c11Query struct {
@@ -205,6 +213,9 @@ func (n *c11Node) build() query.Condition {
 		return query.Or(cs...)
 	case "not":
 		return query.Not(n.Kids[0].build())
+	}
+	if n.Bad > 0 {
+		return c11BadLeaf(n.Key, n.Bad)
 	}
 	var v interface{}
 	switch c11OpClass(n.Op) {
@@ -1904,6 +1915,95 @@ func c11Text(c *ctx, in []byte) {
 }
 
 // ---------------------------------------------------------------------------------
+// c11.recheck: Check() is asked more than once about the same invalid query
+
+var c11BadKinds = []string{"", "int-op-text-operand", "int-op-float-operand", "float-op-text-operand", "bool-op-text-operand", "bad-regex", "in-single-element-text",
+	"string-op-int-operand", "unknown-operator", "in-op-int-operand", "regex-op-int-operand", "bool-op-int-operand", "int-op-nil-operand"}
+
+func c11BadLeaf(key string, bad int) query.Condition {
+	switch bad {
+	case 1:
+		return query.Where(key, query.Equals, "banana")
+	case 2:
+		return query.Where(key, query.GreaterThan, 1.5)
+	case 3:
+		return query.Where(key, query.FloatLessThan, "x1")
+	case 4:
+		return query.Where(key, query.Is, "maybe")
+	case 5:
+		return query.Where(key, query.Matches, "[a")
+	case 6:
+		return query.Where(key, query.In, "single")
+	case 7:
+		return query.Where(key, query.SameAs, 5)
+	case 8:
+		return query.Where(key, 200, "v")
+	case 9:
+		return query.Where(key, query.In, 7)
+	case 10:
+		return query.Where(key, query.Matches, 7)
+	case 11:
+		return query.Where(key, query.Is, 1)
+	default:
+		return query.Where(key, query.LessThanOrEqual, nil)
+	}
+}
+
+func c11Recheck(c *ctx, seed uint64) {
+	b := c.b
+	in := u64le(seed)
+	b.Eval(1)
+	c.call("c11.recheck", in, func() {
+		r := vlib.NewRand(seed, "c11.recheck", 0)
+		g := &c11Gen{r: r, keyType: map[string]byte{}, maxD: 3}
+		q := g.query()
+		if q.Where == nil {
+			q.Where = g.tree(0)
+		}
+		var ls []*c11Node
+		q.Where.leaves(&ls)
+		victim := ls[r.Intn(len(ls))]
+		victim.Bad = 1 + r.Intn(len(c11BadKinds)-1)
+		kind := c11BadKinds[victim.Bad]
+		pq := q.build()
+		_, err1 := pq.Check()
+		b.Distinct([]byte("c11.recheck"), in)
+		if err1 == nil {
+			b.Count("recheck_invalid_leaf_accepted_by_first_check:"+kind, 1) // not what this class is about
+			return
+		}
+		b.Count("recheck_histories", 1)
+		b.Seen("recheck_invalid_kinds", kind)
+		detail := map[string]any{"class": "c11.recheck", "input_hex": hex.EncodeToString(in), "invalid_leaf": kind, "first_check_error": err1.Error(), "build": c.spec.Kind}
+		if pq.IsChecked() {
+			b.Violation("C11:check-history:is-checked-after-failed-check", fmt.Sprintf("Check() failed (%v), yet IsChecked() reports true on the same query", err1), detail)
+		}
+		q2, err2 := pq.Check()
+		mustPanicked := func() (p bool) {
+			defer func() { p = recover() != nil }()
+			pq.MustBeValid()
+			return false
+		}()
+		if err2 == nil {
+			what := fmt.Sprintf("the first Check() fails with %q; a second Check() on the same object returns no error", err1)
+			if q2 != nil { // it claims to pass its own check: then its text has to parse back
+				func() {
+					defer func() { _ = recover() }()
+					t := q2.Print()
+					if _, perr := query.ParseQuery(t); perr != nil {
+						what += fmt.Sprintf("; its text %q does not parse: %v", t, perr)
+					}
+					detail["printed"] = t
+				}()
+			}
+			b.Violation("C11:check-history:second-check-accepts-invalid-query", what, detail)
+		} else if !mustPanicked {
+			b.Violation("C11:check-history:must-be-valid-accepts-invalid-query", fmt.Sprintf("Check() fails twice (%v), but MustBeValid() on the same object does not panic", err1), detail)
+		}
+	})
+}
+
+// ---------------------------------------------------------------------------------
 // shard runner
 
 var c11Vocab = []string{"query", "where", "and", "or", "not", "(", ")", "orderby", "limit", "offset", "t:", "db:key/", "a", "b", "name", "I", "S", "B",
@@ -2031,6 +2131,11 @@ func runC11(c *ctx) {
 				}()
 			}
 		}
+	}
+	// check histories
+	rr := c.rand("recheck")
+	for i, n := 0, c.n(6400, 40000)/ns/div; i < n; i++ {
+		c11Recheck(c, rr.Uint64())
 	}
 	// Q3
 	rg := c.rand("grammar")
